@@ -1,6 +1,6 @@
 from mindsdb_sql.parser.ast.base import ASTNode
 from mindsdb_sql.exceptions import ParsingException
-from mindsdb_sql.parser.utils import indent
+from mindsdb_sql.parser.utils import indent, kw_parameters_to_string
 
 
 class Operation(ASTNode):
@@ -158,16 +158,12 @@ class Object(ASTNode):
     def to_tree(self, *args, level=0, **kwargs):
         ind = indent(level)
 
-        params = [
-            f'{k}={v}'
-            for k, v in self.params.items()
-        ]
-        params_str = ': '.join(params)
+        params_str = ', '.join([f'{k}={repr(v)}' for k, v in self.params.items()])
 
-        return f'{ind}Object(type={repr(self.type)}, params={{params_str}})'
+        return f'{ind}Object(type={repr(self.type)}, params={{{params_str}}})'
 
-    def to_string(self, *args, **kwargs):
-        return self.to_tree()
+    def get_string(self, *args, **kwargs):
+        return f'{self.type}({kw_parameters_to_string(self.params)})'
 
     def __repr__(self):
         return self.to_tree()
